@@ -30,6 +30,19 @@ Round 3 (same level as (B): observation on the real objects):
 (D) `lookalike_family`: mutable option + transition tables / sets in dict / set subclasses (defaultdict,
     OrderedDict, __missing__), reads of missing rows / symbols, definition compared with the one as built.
 
+Round 6:
+(F) `lookalike_values` / `lookalike_args_family` (harness/lookalike_args.py; finding F37, /repo fix 0014d04): in the
+    DEFAULT configuration, constructor arguments given as look-alike containers — `d.keys()` / `d.items()` views
+    and a user `collections.abc.Set` class where a set is expected; `types.MappingProxyType`, `UserDict`,
+    `ChainMap`, a user `collections.abc.Mapping` class where a mapping is expected; `UserList`, `deque`, a user
+    `collections.abc.Sequence` class where a sequence is expected (fix ab97679); subclasses of the builtins
+    (OrderedDict, defaultdict, Counter, a set subclass, a list subclass, a namedtuple) — at every container
+    position of all 8 classes and every nesting level.  FREEZE correspondence on such values (model kinds
+    `setlike` / `maplike`), NEW correspondence on the arguments; property on the real objects: every stored
+    container is of an immutable kind all the way down, the stored definition is the value of the arguments at
+    construction, and mutating every caller-side object afterwards (the dict under a view / proxy, the UserDict,
+    …) changes neither the definition nor the verdicts on a few words.
+
 Round 4:
 (E) `methods_family` / `method_case` (harness/introspect_ops.py): every public instance method that dir() finds
     on each class of the code under test — inherited ones included, arguments synthesised from the parameter
@@ -40,6 +53,7 @@ Round 4:
 """
 from __future__ import annotations
 
+import collections.abc as _abc
 import copy as _copy
 import itertools
 import json
@@ -52,6 +66,7 @@ from automata.base.utils import freeze_value
 
 from harness import enc_misc as E
 from harness import gen_misc as G
+from harness import lookalike_args as LA
 from harness import misc_common as M
 from harness import monitor as Mon
 from harness.common import Ctx, guarded
@@ -77,12 +92,20 @@ RULE = ("(A) cases = Python values for freeze_value (all values of nesting depth
         "option setting × fresh definition, optional parameters filled at random): the operand's whole definition — "
         "input_parameters, constructor parameters read as attributes, definition attributes kept in the instance "
         "__dict__ (GNFA.final_states) — compared after the call; discovered methods outside the hand-written operation "
-        "tables are history operations too")
+        "tables are history operations too. Round 6: (F) look-alike containers (finding F37): FREEZE cases = specs of values "
+        "built from dict keys / items views, mappingproxy, UserDict, ChainMap, user collections.abc Set / Mapping / Sequence "
+        "classes, UserList, deque and builtin subclasses (all of depth ≤2 with ≤1 member, depth 3 as far as the budget goes, "
+        "random to depth 4); constructor cases = (class, definition, recipe {container position: kind}) in the default "
+        "configuration — the F37 input and siblings, one definition per class × every position × every applicable kind one at "
+        "a time and each look-alike kind everywhere at once, then random recipes; non-trivial = ≥2 states, ≥1 transition and "
+        "≥1 look-alike kind in the recipe; distinct = distinct (class, definition, recipe)")
 ASSUMPTIONS = [
     "part (B) is MONITORED at level 'other': absence of operand mutation and of harmful aliasing is observed on sampled histories, not proved",
     "freeze_value theorems assume `supported`: every dict key and every set/frozenset element is hashable (on the model: contains no dict/set/list). This excludes nothing that exists: Python raises TypeError (unhashable type) when such a dict/set/frozenset is built. Lists inside tuples ARE covered (fix 3900daf)",
     "frozendict is the pure-Python implementation (a subclass of dict), as installed here",
-    "objects other than str/int/dict/set/list/tuple/frozenset/frozendict are atoms assumed immutable (None, float, …)",
+    "objects other than str/int/dict/set/list/tuple/frozenset/frozendict and other than collections.abc Mapping / Set / Sequence "
+    "instances (model kinds maplike / setlike / seqlike: mappingproxy, UserDict, ChainMap, dict views, UserList, deque, user classes) "
+    "are atoms assumed immutable (None, float, bytes, …); a user-defined hashable object with mutable content that is none of these is not seen",
     "pickle's byte encoding is CPython's and trusted; the model covers __getstate__/__setstate__",
     "show_diagram (DFA / NFA / GNFA / DPDA / NPDA) cannot be exercised here: pygraphviz / coloraide are not installed, the method raises ImportError before touching the automaton; that it leaves its operand unchanged is therefore NOT observed by the histories",
     "atoms of a definition (state names, symbols) are str / int / float / None / bytes / tuples / frozensets of these, as "
@@ -92,7 +115,9 @@ ASSUMPTIONS = [
     "read_input / accepts_input of PDA / TM classes only when the bounded stepwise run ends",
     "an exception inside a history that is not a documented refusal (AutomatonException subclasses; NotImplementedError of GNFA readers; ValueError of DFA.random_word) is reported as a failure",
 ]
-EXPLANATION = ("Theorems C18_* prove for the model: freeze (tuples entered, fix 3900daf) leaves no mutable container in any value "
+EXPLANATION = ("Theorems C18_* prove for the model: freeze (tuples entered, fix 3900daf; set-like / mapping-like / sequence-like "
+               "look-alikes converted, fixes 0014d04 = F37 and ab97679, with the regression of the old function stated as "
+               "C18_freeze_lookalike_regression) leaves no mutable container in any value "
                "whose dict keys / set elements are hashable (every value Python can build), preserves the abstract value, is "
                "idempotent; setattr/delattr raise AttributeError because the regenerated AST shape of the two hooks is a single "
                "unconditional raise; for every class the public slots are exactly the __init__ parameters (regenerated tables, "
@@ -105,13 +130,16 @@ DRV = "drv_misc"
 
 # ------------------------------------------------------------------ (A) freeze_value
 def is_frozen_py(v) -> bool:
-    """Independent oracle: no dict / set / list object anywhere inside."""
+    """Independent oracle: no dict / set / list object — and no set-like / mapping-like object that is not a
+    frozenset / frozendict (dict views, mappingproxy, UserDict, user collections.abc classes) — anywhere inside."""
     if isinstance(v, frozendict):
         return all(is_frozen_py(k) and is_frozen_py(x) for k, x in v.items())
     if isinstance(v, (dict, set, list)):
         return False
     if isinstance(v, (frozenset, tuple)):
         return all(is_frozen_py(x) for x in v)
+    if isinstance(v, (_abc.Mapping, _abc.Set)) or (isinstance(v, _abc.Sequence) and not isinstance(v, (str, bytes))):
+        return False
     return True
 
 
@@ -126,7 +154,29 @@ def supported_py(v) -> bool:
         return all(supported_py(x) for x in v)
     if isinstance(v, (set, frozenset)):
         return all(is_frozen_py(x) for x in v)
+    if isinstance(v, _abc.Mapping):      # maplike: keys hashable, values anything
+        return all(is_frozen_py(k) and supported_py(v[k]) for k in list(v.keys()))
+    if isinstance(v, _abc.Set):          # setlike: members need not be hashable ({1: [2]}.items())
+        return all(supported_py(x) for x in v)
+    if isinstance(v, _abc.Sequence) and not isinstance(v, (str, bytes)):   # seqlike
+        return all(supported_py(x) for x in v)
     return True
+
+
+def is_lookalike(v) -> bool:
+    """A set-like / mapping-like / sequence-like object that is not an instance of a builtin container."""
+    return (isinstance(v, (_abc.Mapping, _abc.Set, _abc.Sequence))
+            and not isinstance(v, (dict, set, frozenset, list, tuple, str, bytes)))
+
+
+def has_lookalike(v) -> bool:
+    if is_lookalike(v):
+        return True
+    if isinstance(v, _abc.Mapping):
+        return any(has_lookalike(v[k]) for k in list(v.keys()))
+    if isinstance(v, (list, tuple, _abc.Set)) or (isinstance(v, _abc.Sequence) and not isinstance(v, (str, bytes))):
+        return any(has_lookalike(x) for x in v)
+    return False
 
 
 def has_list_in_tuple(v, in_tuple: bool = False) -> bool:
@@ -143,15 +193,15 @@ def has_list_in_tuple(v, in_tuple: bool = False) -> bool:
 
 def depth_has_nested_mutable(v) -> bool:
     inner = []
-    if isinstance(v, (dict, frozendict)):
-        inner = list(v.values())
-    elif isinstance(v, (list, tuple, set, frozenset)):
+    if isinstance(v, _abc.Mapping):
+        inner = [v[k] for k in list(v.keys())]
+    elif isinstance(v, (list, tuple, _abc.Set)) or (isinstance(v, _abc.Sequence) and not isinstance(v, (str, bytes))):
         inner = list(v)
     return any(not is_frozen_py(x) for x in inner)
 
 
 @guarded
-def check_freeze(ctx: Ctx, v, origin: str):
+def check_freeze(ctx: Ctx, v, origin: str, rp: Optional[dict] = None):
     stt = E.StrTable()
     enc = E.enc_py(v, stt)
     raised = False
@@ -173,12 +223,14 @@ def check_freeze(ctx: Ctx, v, origin: str):
     ctx.stat("freeze:supported" if supported_py(v) else "freeze:unsupported")
     if has_list_in_tuple(v):
         ctx.stat("freeze:mutable_inside_tuple")
+    if has_lookalike(v):
+        ctx.stat("freeze:holds_lookalike(setlike/maplike/seqlike)")
     if ctx.evaluations % 2003 == 11:
         ctx.sample(dict(value=repr(v)[:200], frozen=repr(real)[:200], model=fz[:200]))
     bad = []
     if not raised:
         if supported_py(v) and not is_frozen_py(real):
-            bad.append(f"a mutable container survives freezing: {Mon.mutable_containers(real)[:3]}")
+            bad.append(f"a mutable container survives freezing: {(Mon.mutable_containers(real) or not_immutable_form(real))[:3]}")
         if G.norm(real) != G.norm(v):
             bad.append("freezing changed the abstract value")
         again = freeze_value(real)
@@ -189,9 +241,10 @@ def check_freeze(ctx: Ctx, v, origin: str):
     else:
         bad.append(f"freeze_value raised {impl}")
     if bad:
-        ctx.prop_fail("freeze_value: " + "; ".join(bad), dict(kind="freeze", value=repr(v)), None)
+        ctx.prop_fail("freeze_value: " + "; ".join(bad) + f" (value {v!r:.160})",
+                      rp or dict(kind="freeze", value=repr(v)), None)
     elif (impl != fz or m_frozen != is_frozen_py(real) or m_supported != supported_py(v) or nv != nf):
-        ctx.corr_diff("FREEZE", dict(value=repr(v)), dict(frozen=impl, is_frozen=is_frozen_py(real), supported=supported_py(v)),
+        ctx.corr_diff("FREEZE", rp or dict(value=repr(v)), dict(frozen=impl, is_frozen=is_frozen_py(real), supported=supported_py(v)),
                       dict(frozen=fz, is_frozen=m_frozen, supported=m_supported, norm_equal=(nv == nf)))
 
 
@@ -1203,6 +1256,359 @@ def ensure_final_eps(rng, kw):
     row.setdefault("", {rng.choice(list(kw["states"]))})
 
 
+
+# ------------------------------------------------------------------ (F) look-alike containers as arguments
+# Values for FREEZE are described by SPECS (JSON-able, so that a failure can be replayed): ["a", atom] or
+# [kind, [member specs]] / [map kind, [[key spec, value spec], …]] / ["items-view", [[key spec, value spec], …]].
+SPEC_SEQ = ("list", "tuple", "list-subclass", "namedtuple", "userlist", "deque", "abc-sequence")
+SPEC_SET = ("set", "frozenset", "keys-view", "odict-keys-view", "abc-set", "set-subclass")
+SPEC_MAP = ("dict", "frozendict", "mappingproxy", "userdict", "chainmap", "abc-mapping", "mappingproxy-of-userdict",
+            "OrderedDict", "defaultdict", "Counter")
+SPEC_PAIRS = SPEC_MAP + ("items-view",)
+SPEC_HASHABLE = ("tuple", "frozenset", "namedtuple")
+
+
+def spec_hashable(sp) -> bool:
+    return sp[0] == "a" or (sp[0] in SPEC_HASHABLE and all(spec_hashable(x) for x in sp[1]))
+
+
+def build_spec(sp, rng):
+    """The Python value a spec describes (fresh objects; the caller-side owners are dropped)."""
+    kind = sp[0]
+    if kind == "a":
+        return sp[1]
+    if kind in SPEC_SEQ:
+        return LA.make_seq(kind, [build_spec(x, rng) for x in sp[1]], "", rng, [])
+    if kind in SPEC_SET:
+        xs = []
+        for x in (build_spec(x, rng) for x in sp[1]):
+            if x not in xs:
+                xs.append(x)
+        return LA.make_set(kind, xs, "", rng, [])
+    d = {build_spec(k, rng): build_spec(x, rng) for k, x in sp[1]}
+    if kind == "items-view":
+        return d.items()
+    return LA.make_map(kind, d, "", rng, [])
+
+
+SMALL_KINDS = ("list", "tuple", "set", "dict", "keys-view", "items-view", "mappingproxy", "userdict", "abc-set",
+               "abc-mapping", "chainmap", "OrderedDict", "namedtuple", "userlist", "deque")
+
+
+def small_lookalike_specs(depth: int):
+    """All specs of nesting depth ≤ depth with ≤ 1 member per container over the atoms {1, 'a', None} and the
+    container kinds SMALL_KINDS (hashable members / keys where Python requires them)."""
+    if depth == 0:
+        for a in (1, "a", None):
+            yield ["a", a]
+        return
+    subs = list(small_lookalike_specs(depth - 1))
+    yield from subs
+    hashable = [x for x in subs if spec_hashable(x)]
+    for kind in SMALL_KINDS:
+        yield [kind, []]
+        if kind in SPEC_PAIRS:
+            for x in subs:
+                yield [kind, [[["a", 1], x]]]
+        elif kind == "abc-set" or kind in SPEC_SEQ:
+            for x in subs:                       # a user Set class may hold anything
+                yield [kind, [x]]
+        else:
+            for x in hashable:
+                yield [kind, [x]]
+
+
+def rand_lookalike_spec(rng, depth: int, hashable: bool = False):
+    if depth == 0 or rng.random() < 0.2:
+        return ["a", rng.choice([0, 1, -1, 7, "a", "b", "", "q0", None, True, 2.5, "both"])]
+    if hashable:
+        kind = rng.choice(SPEC_HASHABLE)
+        return [kind, [rand_lookalike_spec(rng, depth - 1, True) for _ in range(rng.randint(0, 3 if kind != "namedtuple" else 2))]]
+    kind = rng.choice(SPEC_SEQ + SPEC_SET + SPEC_PAIRS + ("keys-view", "items-view", "mappingproxy", "userdict", "abc-set",
+                                                          "userlist", "deque"))
+    n = rng.randint(0, 3)
+    if kind in SPEC_SEQ:
+        return [kind, [rand_lookalike_spec(rng, depth - 1) for _ in range(n)]]
+    if kind == "abc-set":
+        return [kind, [rand_lookalike_spec(rng, depth - 1) for _ in range(n)]]
+    if kind in SPEC_SET:
+        return [kind, [rand_lookalike_spec(rng, depth - 1, True) for _ in range(n)]]
+    return [kind, [[rand_lookalike_spec(rng, min(depth - 1, 1), True), rand_lookalike_spec(rng, depth - 1)] for _ in range(n)]]
+
+
+def spec_kinds(sp, out=None) -> set:
+    out = set() if out is None else out
+    if sp[0] != "a":
+        out.add(sp[0])
+        for x in sp[1]:
+            if sp[0] in SPEC_PAIRS:
+                spec_kinds(x[0], out)
+                spec_kinds(x[1], out)
+            else:
+                spec_kinds(x, out)
+    return out
+
+
+def check_freeze_spec(ctx: Ctx, sp, origin: str):
+    try:
+        v = build_spec(sp, ctx.rng)
+    except TypeError:      # an unhashable key / member slipped in: Python cannot build the value
+        ctx.stat("freeze:spec_not_buildable")
+        return
+    for k in spec_kinds(sp):
+        ctx.stat(f"freeze:kind:{k}")
+    check_freeze(ctx, v, origin, rp=dict(kind="freeze_spec", spec=sp))
+
+
+def lookalike_values(ctx: Ctx, rng):
+    corpus = [
+        ["keys-view", [["a", 1]]],                                                   # F37: fin.keys()
+        ["items-view", [[["a", 1], ["list", [["a", 2]]]]]],                          # {1: [2]}.items(): unhashable member
+        ["mappingproxy", [[["a", 0], ["mappingproxy", [[["a", "a"], ["a", 1]]]]]]],  # a proxied DFA table, rows proxied
+        ["dict", [[["a", 0], ["keys-view", [["a", 1]]]]]],                           # a view inside a dict
+        ["list", [["userdict", [[["a", 1], ["set", [["a", 2]]]]]]]],
+        ["tuple", [["abc-set", [["list", [["a", 1]]]]]]],                            # a user Set holding a list
+        ["chainmap", [[["a", "q"], ["abc-mapping", [[["a", ""], ["keys-view", [["a", "p"]]]]]]]]],
+        ["OrderedDict", [[["a", 1], ["namedtuple", [["a", 1], ["list-subclass", [["a", 2]]]]]]]],
+        ["Counter", [[["a", "a"], ["a", 2]]]], ["defaultdict", [[["a", 1], ["set-subclass", [["a", 2]]]]]],
+        ["mappingproxy-of-userdict", [[["a", 1], ["odict-keys-view", [["a", 2]]]]]],
+        # sequence-likes (fix ab97679): a UserList of MNTM results, a deque of moves, a user Sequence class
+        ["dict", [[["tuple", [["a", "1"]]], ["userlist", [["tuple", [["a", "q1"], ["deque", [["list", [["a", "1"], ["a", "R"]]]]]]]]]]]],
+        ["abc-sequence", [["a", 1], ["set", [["a", 2]]]]], ["keys-view", [["tuple", [["a", 1], ["a", 2]]]]],
+    ]
+    for sp in corpus:
+        check_freeze_spec(ctx, sp, "lookalike_corpus")
+    KINDS_TEXT = ("container kinds list, tuple, namedtuple, set, dict, OrderedDict and the look-alikes dict keys view, dict "
+                  "items view, mappingproxy, UserDict, ChainMap, a user collections.abc.Set class, a user "
+                  "collections.abc.Mapping class, UserList, deque")
+    seen = 0
+    for sp in small_lookalike_specs(2):
+        check_freeze_spec(ctx, sp, "lookalike_exhaustive")
+        seen += 1
+    ctx.exhaustive("freeze_value on every value of nesting depth ≤2 over atoms {1,'a',None} with ≤1 member per container, "
+                   + KINDS_TEXT)
+    n = 0
+    for sp in small_lookalike_specs(3):
+        n += 1
+        if n <= seen:
+            continue          # (the enumeration of depth 3 starts with the values of depth ≤2)
+        check_freeze_spec(ctx, sp, "lookalike_exhaustive")
+        if n - seen >= ctx.budget(2500, 200000):
+            break
+    else:
+        ctx.exhaustive("freeze_value on every value of nesting depth ≤3 over atoms {1,'a',None} with ≤1 member per container, "
+                       + KINDS_TEXT)
+    for _ in range(ctx.budget(2000, 40000)):
+        check_freeze_spec(ctx, rand_lookalike_spec(rng, rng.randint(1, 4)), "lookalike_random")
+
+
+class _Lister(LA.Chooser):
+    """Records every container position of a definition with the kinds applicable there; wraps nothing."""
+
+    def __init__(self):
+        super().__init__(None, {})
+        self.positions = []
+
+    def pick(self, label, lookalikes, subclasses, plain):
+        self.positions.append((label, tuple(lookalikes) + tuple(subclasses) + tuple(plain[1:])))
+        return plain[0]
+
+
+def verdict_sig(obj, cls: str, kw):
+    """Verdicts on a few words (bounded runs for the machines); None for GNFA (it reads no input)."""
+    if cls == "GNFA":
+        return None
+    al = sorted(kw["input_symbols"])
+    if cls in ("DFA", "NFA"):
+        return M.lang_sig(obj, al, 3 if len(al) <= 2 else 2)
+    out = []
+    for w in list(M.words_upto(al, 2))[:7]:
+        try:
+            out.append(M._verdicts(obj, w))
+        except RecursionError:
+            raise
+        except Exception as e:  # noqa: BLE001 - whatever the machine does on the word, it must do it again afterwards
+            out.append(("raised", type(e).__name__))
+    return tuple(out)
+
+
+LOOKALIKE_KINDS = set(LA.SET_LOOKALIKES + LA.MAP_LOOKALIKES + LA.SEQ_LOOKALIKES)
+
+
+@guarded
+def lookalike_args_case(ctx: Ctx, cls: str, kw, recipe: Optional[Dict[str, str]], origin: str) -> None:
+    """cls(**arguments) in the DEFAULT configuration, the arguments being the plain definition `kw` rebuilt with
+    look-alike containers (per `recipe`, or chosen at random and recorded): (a) every stored container is of an
+    immutable kind all the way down and the stored definition is the value of the arguments at construction;
+    (b) mutating every caller-side object afterwards changes neither the definition nor the verdicts."""
+    rng = ctx.rng
+    ch = LA.Chooser(rng, recipe)
+    args, owners = LA.wrap_definition(cls, G._dc(kw), ch, rng)
+    rp = dict(kind="lookalike_args", cls=cls, kwargs=repr(kw), recipe=dict(ch.recipe))
+    want = G.snapshot(G._dc(kw))
+    used = sorted(set(ch.recipe.values()))
+    # freeze_value itself on every container argument: real vs the Lean model (kinds setlike / maplike)
+    for k, v in args.items():
+        if k in G.SET_PARAMS or k == "transitions":
+            check_freeze(ctx, v, "lookalike_args", rp=rp)
+    stt = E.StrTable()
+    try:
+        enc = f"{cls} " + E.enc_kwargs(args, stt)
+    except Exception:  # noqa: BLE001
+        enc = None
+    with M.options(True, False):
+        try:
+            obj = G.get_class(cls)(**args)
+        except RecursionError:
+            raise
+        except Exception as e:  # noqa: BLE001
+            ok_plain = M.construct(cls, G._dc(kw))[0] == "ok"
+            ctx.stat(f"lookalike_args:rejected:{cls}:{type(e).__name__}:{'plain_accepted' if ok_plain else 'plain_rejected_too'}")
+            if ok_plain:
+                ctx.prop_fail(f"{cls}: the definition is accepted when given in builtin containers and refused "
+                              f"({type(e).__name__}: {str(e)[:80]}) when the same value is given in {used} — in the default "
+                              f"configuration the arguments are converted before anything reads them", rp, None)
+            return
+    for kind in used:
+        ctx.stat(f"lookalike_args:kind:{kind}")
+    for label, kind in ch.recipe.items():
+        ctx.stat(f"lookalike_args:position:{cls}:{label.split('[')[0]}:depth{LA.depth_of(label)}"
+                 + (":lookalike" if kind in LOOKALIKE_KINDS else ":subclass_or_plain"))
+    ctx.stat(f"lookalike_args:{origin}:{cls}")
+    ok = True
+    # (a) immutable kinds all the way down, hashable, and equal in value to the arguments
+    bad = stored_not_immutable(obj)
+    if bad:
+        ok = False
+        ctx.prop_fail(f"{cls} (default configuration) stores {describe_bad(bad)} — not in immutable form; arguments given "
+                      f"as {dict(list(ch.recipe.items())[:4])}", rp, None)
+    else:
+        for k, v in definition(obj).items():
+            try:
+                hash(v)
+            except TypeError as e:
+                ok = False
+                ctx.prop_fail(f"{cls}: stored attribute {k} is not hashable ({e}); arguments given as {used}", rp, None)
+                break
+    snap = G.snapshot(obj.input_parameters)
+    if snap != want:
+        ok = False
+        ctx.prop_fail(f"{cls}: the stored definition is not the value of the arguments at construction (arguments given "
+                      f"as {used}): {obj.input_parameters!r:.200}", rp, None)
+    if enc is not None and ok:
+        impl_new = params_line(obj, stt)
+        model_new = parse_inst(ctx.driver(DRV).ask("NEW 0 " + enc))
+        if impl_new != model_new:
+            ctx.corr_diff("NEW", rp, impl_new, model_new)
+    whole = whole_definition(obj)
+    with M.options(True, False):
+        sig = verdict_sig(obj, cls, kw)
+    # (b) later mutation of every caller-side object: the plain dicts / sets / lists first (all, then one
+    # comparison), then every look-alike / subclass object one at a time
+    plain = [o for o in owners if o[1] in ("dict", "set", "list")]
+    for label, kind, _holder, mutate in plain:
+        mutate()
+        ctx.stat(f"lookalike_args:owner_mutated:{kind}")
+    if plain and whole_definition(obj) != whole:
+        ok = False
+        ctx.prop_fail(f"{cls} (default configuration): changing the caller's plain dict / set / list arguments AFTER "
+                      f"construction changed the automaton's definition", rp, None)
+        whole = whole_definition(obj)
+    for label, kind, _holder, mutate in owners:
+        if kind in ("dict", "set", "list"):
+            continue
+        try:
+            mutate()
+        except Exception as e:  # noqa: BLE001 - a caller-side object that cannot be changed this way
+            ctx.stat(f"lookalike_args:owner_not_mutated:{kind}:{type(e).__name__}")
+            continue
+        ctx.stat(f"lookalike_args:owner_mutated:{kind}")
+        try:
+            now = whole_definition(obj)
+        except Exception as e:  # noqa: BLE001
+            now = ("unreadable", type(e).__name__)
+        if now != whole:
+            ok = False
+            ctx.prop_fail(f"{cls} (default configuration): changing the caller's {kind} behind the argument at {label} AFTER "
+                          f"construction changed the automaton's definition: "
+                          f"{describe_change(whole, now) if len(now) == 3 else now}", rp, None)
+            if len(now) == 3:
+                whole = now
+    if owners:
+        with M.options(True, False):
+            try:
+                sig2 = verdict_sig(obj, cls, kw)
+            except RecursionError:
+                raise
+            except Exception as e:  # noqa: BLE001
+                sig2 = ("raised", type(e).__name__)
+        if sig2 != sig:
+            ok = False
+            ctx.prop_fail(f"{cls} (default configuration): after the caller's objects behind the arguments ({used}) were "
+                          f"changed, the automaton answers differently on words up to length 3", rp, None)
+    nontrivial = C19_nontrivial(kw) and any(k in LOOKALIKE_KINDS for k in ch.recipe.values())
+    ctx.case(("lookalike_args", cls, E.enc_def(cls, kw), tuple(sorted(ch.recipe.items()))) if ok and nontrivial else None)
+
+
+def f37_definition():
+    return dict(states={0, 1}, input_symbols={"a"}, transitions={0: {"a": 1}, 1: {"a": 1}}, initial_state=0,
+                final_states={1}, allow_partial=False)
+
+
+def lookalike_args_corpus(ctx: Ctx):
+    """The input of finding F37 (DFA(..., final_states=fin.keys())) and its siblings."""
+    for recipe in ({"final_states": "keys-view"}, {"states": "keys-view"}, {"transitions": "mappingproxy"},
+                   {"transitions": "userdict", "transitions[0]": "mappingproxy"}, {"input_symbols": "abc-set"},
+                   {"transitions": "chainmap", "transitions[1]": "abc-mapping", "final_states": "odict-keys-view"}):
+        lookalike_args_case(ctx, "DFA", f37_definition(), recipe, "corpus")
+
+
+def lookalike_args_family(ctx: Ctx, rng):
+    # one definition per class: every container position × every applicable kind, one position at a time
+    for cls in G.CLASSES:
+        # (the smallest of a few generated definitions: the sweep is quadratic in the number of positions)
+        best = None
+        for _ in range(6):
+            kw = lookalike_definition(rng, cls)
+            ls = _Lister()
+            LA.wrap_definition(cls, G._dc(kw), ls, rng)
+            if C19_nontrivial(kw) and (best is None or len(ls.positions) < len(best[1].positions)):
+                best = (kw, ls)
+        if best is None:
+            best = (kw, ls)
+        kw, ls = best
+        ctx.stat(f"lookalike_args:positions:{cls}", len(ls.positions))
+        for label, kinds in ls.positions:
+            for kind in kinds:
+                lookalike_args_case(ctx, cls, kw, {label: kind}, "one_position")
+        # … and one kind at every position at once
+        for kind in LA.SET_LOOKALIKES[:3] + LA.MAP_LOOKALIKES + LA.SEQ_LOOKALIKES + LA.SEQ_SUBCLASSES:
+            recipe = {label: kind for label, kinds in ls.positions if kind in kinds}
+            lookalike_args_case(ctx, cls, kw, recipe, "one_kind_everywhere")
+    ctx.exhaustive("for one generated definition per class (8 classes): every container position of the constructor "
+                   "arguments (sets, transition table, rows, target / result sets, result tuples, MNTM result and move "
+                   "lists) × every look-alike / builtin-subclass kind applicable there, one position at a time, and each "
+                   "look-alike kind at all positions at once — default configuration")
+    for _ in range(ctx.budget(20, 400)):
+        for cls in G.CLASSES:
+            lookalike_args_case(ctx, cls, lookalike_definition(rng, cls), None, "random")
+
+
+def lookalike_definition(rng, cls: str):
+    """A valid definition with ≥2 states and ≥1 transition (atoms as names: junk=False)."""
+    kw = {}
+    for _ in range(20):
+        if cls == "MNTM":
+            kw = G.rand_tm_def(rng, "MNTM", list_results=rng.random() < 0.5)
+        elif cls in TL_CLASSES and rng.random() < 0.3:
+            kw = tuple_list_def(rng, cls)
+        else:
+            kw = G.rand_def(rng, cls)
+        if C19_nontrivial(kw):
+            break
+    return kw
+
+
 # ------------------------------------------------------------------ run
 def run(ctx: Ctx):
     rng = ctx.rng
@@ -1286,6 +1692,16 @@ def run(ctx: Ctx):
                 kw = G.kwargs_of(M.construct("DFA", kw)[1].to_complete())
             check_object_model(ctx, cls, kw, "default_param", False, False, drop=p)
 
+    # ---- (F) look-alike containers (finding F37): FREEZE on values holding them, then as constructor arguments
+    import time as _time
+    t0 = _time.time()
+    lookalike_args_corpus(ctx)
+    lookalike_values(ctx, rng)
+    t1 = _time.time()
+    lookalike_args_family(ctx, rng)
+    ctx.stat("wall_s:lookalike_values", int(t1 - t0))
+    ctx.stat("wall_s:lookalike_args_family", int(_time.time() - t1))
+
     # ---- results of operations as immutable values; option switched between construction and calls
     results_family(ctx, rng, ctx.budget(30, 400))
     # ---- mutable option + dict / set subclasses and look-alikes as containers
@@ -1320,6 +1736,14 @@ def replay(ctx: Ctx, path: str) -> int:
         env = _env()
         env["frozendict"] = type("FD", (), {"frozendict": frozendict})  # repr is frozendict.frozendict({...})
         check_freeze(ctx, eval(rp["value"], env), "replay")
+    elif kind == "freeze_spec":
+        check_freeze_spec(ctx, rp["spec"], "replay")
+    elif kind == "lookalike_args":
+        kw = eval(rp["kwargs"], _env())
+        for _ in range(5):
+            lookalike_args_case(ctx, rp["cls"], kw, rp["recipe"], "replay")
+            if ctx.prop_fails:
+                break
     elif kind == "object":
         kw = eval(rp["kwargs"], _env())
         check_object_model(ctx, rp["cls"], kw, "replay", rp["m0"], rp["m1"])
